@@ -240,6 +240,16 @@ def run(ctx, deep=False):
                         calls.append(("ac", ac["id"], "set_mode", [m.name, "1"], st))
                     for pc in A.AcPowerControl:
                         calls.append(("ac", ac["id"], "set_power", [pc.name], st))
+            # the AC status frames' own "a timer is set" flag goes up and down (a timer ran out, the other is still pending), then timer calls:
+            # the other timer is retained as the last TIMER status reported it
+            for flag in (1, 0):
+                recs = [dict(id=ac["id"], power=1, mode=ac.get("mode", 4), fan=0, timer=flag, setpoint=(22 if gen == 4 else 120), temp=235) for ac in inst["acs"]]
+                calls.append(("frame", 0, (consolesim.at4_ac_status if gen == 4 else consolesim.at5_ac_status)(recs), [], {}))
+            for ac in inst["acs"]:
+                st = {"id": ac["id"]}
+                for tt in A.AcTimerType:
+                    calls.append(("ac", ac["id"], "set_quick_timer", [tt.name, "time", "6", "45"], st))
+                    calls.append(("ac", ac["id"], "clear_quick_timer", [tt.name], st))
             ops = consolesim.handshake(gen, inst)
             # the console reports quick timers that differ per AC and between ON and OFF, so "the other timer is kept" is visible
             reported = {ac["id"]: ((7 + k, 5 + ac["id"]), None if k % 2 else (21, 40 + k)) for k, ac in enumerate(inst["acs"])}
